@@ -8,7 +8,7 @@
 
    Types are tuples:  <<"int">> <<"int8">> <<"uint8">> <<"float64">> <<"string">> <<"bool">>
      <<"named","N",<<"int">>>>  <<"named","NS",<<"slice",<<"int">>>>>>  <<"ptr",T>> <<"slice",T>> <<"map",K,V>>
-     <<"chan",T>> <<"func",<<P...>>,<<R...>>,variadic>> <<"iface","any">> <<"iface","error">>
+     <<"chan",T>> <<"func",<<P...>>,<<R...>>,variadic>> <<"iface","any">> <<"iface","error">> <<"array",n,T>>
      <<"untyped",kind>> (kind int float string bool nil)  <<"tuple",<<T...>>>>  <<"void">>
    Constant values: [k |-> "none"|"num"|"str"|"bool", n, d]  num = n/d (d = 0: magnitude beyond the window, sign n);
      str: n = length (all strings are "s" repeated, so the length is the value); bool: n = 0/1. *)
@@ -94,6 +94,7 @@ TInt == <<"int">>  TInt8 == <<"int8">>  TUint8 == <<"uint8">>  TFloat == <<"floa
 TBool == <<"bool">>  TN == <<"named", "N", TInt>>  TPtr == <<"ptr", TInt>>  TSlice == <<"slice", TInt>>
 TNS == <<"named", "NS", TSlice>>  TMap == <<"map", TString, TInt>>  TChan == <<"chan", TInt>>
 TFunc == <<"func", <<TInt>>, <<TInt>>, FALSE>>  TAny == <<"iface", "any">>  TError == <<"iface", "error">>
+TArr == <<"array", 3, TInt>>
 U(kind) == <<"untyped", kind>>
 TVoid == <<"void">>
 TupleT(ts) == <<"tuple", ts>>
@@ -103,6 +104,7 @@ TY(s) == CASE s = "int" -> TInt [] s = "int8" -> TInt8 [] s = "uint8" -> TUint8 
            [] s = "string" -> TString [] s = "bool" -> TBool [] s = "N" -> TN [] s = "NS" -> TNS [] s = "*int" -> TPtr
            [] s = "[]int" -> TSlice [] s = "map[string]int" -> TMap [] s = "chan int" -> TChan
            [] s = "func(int) int" -> TFunc [] s = "any" -> TAny [] s = "interface{}" -> TAny [] s = "error" -> TError
+           [] s = "[3]int" -> TArr [] s = "*[3]int" -> <<"ptr", TArr>>
 TYs(ss) == [j \in 1..Len(ss) |-> TY(ss[j])]
 
 IsUntyped(t) == t[1] = "untyped"
@@ -165,7 +167,7 @@ ConvU(x, T) ==
        ELSE IF x.sh /\ ~Representable(x.shv, T) THEN "shifted constant not representable" ELSE ""
   ELSE IF u[1] = "iface" THEN
        IF IsNil(x.t) THEN "" ELSE IF T # TAny THEN "untyped value to non-empty interface" ELSE DefaultErr(x)
-  ELSE IF IsNil(x.t) THEN "" ELSE "untyped value to composite type"
+  ELSE IF IsNil(x.t) THEN (IF HasNil(T) THEN "" ELSE "cannot use nil as array") ELSE "untyped value to composite type"
 
 \* "a value x of type V is assignable to T" (Go spec, Assignability) ("" = assignable)
 Assignable(x, T) ==
@@ -305,6 +307,12 @@ IndexErr(i) ==
   ELSE IF ~IsUntyped(i.t) /\ ~IsInteger(i.t) THEN "index must be integer"
   ELSE IF IsConst(i) /\ i.cv.k = "num" /\ i.cv.n < 0 THEN "index must not be negative" ELSE ""
 
+\* the array type indexed or sliced through t (an array or a pointer to an array), <<>> when there is none
+ArrOf(t) == LET u == Under(t) IN
+            IF u[1] = "array" THEN u ELSE IF u[1] = "ptr" /\ Under(u[2])[1] = "array" THEN Under(u[2]) ELSE <<>>
+\* "a constant index must be in range" for arrays and pointers to arrays: 0 <= i < len for an index, 0 <= i <= len for a slice bound
+ConstIdxOut(i, len, isbound) == IsConst(i) /\ i.cv.k = "num" /\ (IsHuge(i.cv) \/ (IF isbound THEN i.cv.n > len ELSE i.cv.n >= len))
+
 \* T(x)  (Go spec, Conversions)
 ConvR(T, x) ==
   IF x.err # "" THEN x
@@ -392,6 +400,7 @@ IdentsOf(e) ==
     [] e.k = "assert" -> IdentsOf(e.x)
     [] e.k = "slicelit" -> IdentsOfSeq(e.args)
     [] e.k = "maplit" -> IdentsOf(e.key) \cup IdentsOf(e.val)
+    [] e.k = "flcall" -> (IdentsOf(e.ret) \ {e.param}) \cup IdentsOf(e.arg)      \* the parameter hides an outer name in the body only
 
 BuiltinR(name, xs) ==
   LET n == Len(xs)
@@ -404,6 +413,9 @@ BuiltinR(name, xs) ==
               ELSE LET u == Under(x.t)[1] IN
                    IF name = "len" /\ IsString(x.t) THEN (IF IsConst(x) /\ x.cv.k = "str" THEN R(TInt, IntV(x.cv.n)) ELSE R(TInt, NoCV))
                    ELSE IF u \in {"slice", "chan"} \/ (name = "len" /\ u = "map") THEN R(TInt, NoCV)
+                   \* "len(s) and cap(s) are constants if the type of s is an array or pointer to an array and the expression s does
+                   \* not contain channel receives or (non-constant) function calls": no call or receive of the core yields an array
+                   ELSE IF ArrOf(x.t) # <<>> THEN R(TInt, IntV(ArrOf(x.t)[2]))
                    ELSE ErrR("invalid argument for len/cap")
          [] name = "append" ->
               IF n < 1 THEN ErrR("not enough arguments for append")
@@ -459,6 +471,11 @@ TypeOf(e, env) ==
          ELSE IF u[1] = "slice" THEN (IF IndexErr(i) # "" THEN ErrR(IndexErr(i)) ELSE [R(u[2], NoCV) EXCEPT !.addr = TRUE])
          ELSE IF u[1] = "map" THEN
               (IF Assignable(i, u[2]) # "" THEN ErrR(Assignable(i, u[2])) ELSE [R(u[3], NoCV) EXCEPT !.mapidx = TRUE, !.cok = TRUE])
+         ELSE IF ArrOf(x.t) # <<>> THEN
+              (LET a == ArrOf(x.t) IN
+               IF IndexErr(i) # "" THEN ErrR(IndexErr(i))
+               ELSE IF ConstIdxOut(i, a[2], FALSE) THEN ErrR("constant index out of range")
+               ELSE [R(a[3], NoCV) EXCEPT !.addr = x.addr \/ u[1] = "ptr"])
          ELSE ErrR("cannot index")
     [] e.k = "slice" ->
          LET x == TypeOf(e.x, env) i == TypeOf(e.lo, env) u == Under(x.t) IN
@@ -469,6 +486,12 @@ TypeOf(e, env) ==
                ELSE IF IsConst(x) /\ IsConst(i) /\ (IsHuge(i.cv) \/ i.cv.n > x.cv.n) THEN ErrR("constant slice bound out of range")
                ELSE R(IF IsUntyped(x.t) THEN TString ELSE x.t, NoCV))
          ELSE IF u[1] = "slice" THEN (IF IndexErr(i) # "" THEN ErrR(IndexErr(i)) ELSE R(x.t, NoCV))
+         ELSE IF ArrOf(x.t) # <<>> THEN
+              (LET a == ArrOf(x.t) IN
+               IF u[1] = "array" /\ ~x.addr THEN ErrR("cannot slice unaddressable array")
+               ELSE IF IndexErr(i) # "" THEN ErrR(IndexErr(i))
+               ELSE IF ConstIdxOut(i, a[2], TRUE) THEN ErrR("constant slice bound out of range")
+               ELSE R(<<"slice", a[3]>>, NoCV))
          ELSE ErrR("cannot slice")
     [] e.k = "sel" ->
          LET j == LookupIdx(env, e.pkg) IN
@@ -486,6 +509,11 @@ TypeOf(e, env) ==
     [] e.k = "maplit" ->       \* map[string]int{key: val}
          LET a == Assignable(TypeOf(e.key, env), TString) b == Assignable(TypeOf(e.val, env), TInt) IN
          IF a # "" THEN ErrR(a) ELSE IF b # "" THEN ErrR(b) ELSE R(TMap, NoCV)
+    [] e.k = "flcall" ->       \* func(param int) int { return ret }(arg): the parameter is in scope in the body only
+         LET a == Assignable(TypeOf(e.arg, env), TInt)
+             inner == IF e.param = "_" THEN env ELSE [env EXCEPT !.vars = Append(@, Entry(e.param, TInt, "var", TRUE, env.depth + 1, NoCV))]
+             r == Assignable(TypeOf(e.ret, inner), TInt) IN
+         IF r # "" THEN ErrR(r) ELSE IF a # "" THEN ErrR(a) ELSE R(TInt, NoCV)
 
 (* ------------------------------------------------------------------ statements *)
 FirstErr(es) == IF \E j \in 1..Len(es) : es[j] # "" THEN es[CHOOSE j \in 1..Len(es) : es[j] # "" /\ \A i \in 1..(j - 1) : es[i] = ""] ELSE ""
@@ -636,12 +664,12 @@ CheckStmt(s, env) ==
     [] s.k = "expr" ->
          LET x == TypeOf(s.e, env) IN
          IF x.err # "" THEN Fail(env, x.err)
-         ELSE IF ~(s.e.k = "call" \/ (s.e.k = "builtin" /\ s.e.name \in {"panic", "delete"}) \/ (s.e.k = "un" /\ s.e.op = "<-"))
+         ELSE IF ~(s.e.k \in {"call", "flcall"} \/ (s.e.k = "builtin" /\ s.e.name \in {"panic", "delete"}) \/ (s.e.k = "un" /\ s.e.op = "<-"))
               THEN Fail(env, "expression is not used")
          ELSE MarkUsed(env, IdentsOf(s.e))
     [] s.k \in {"go", "defer"} ->
          LET x == TypeOf(s.e, env) IN
-         IF ~(s.e.k = "call" \/ (s.e.k = "builtin" /\ s.e.name \in {"panic", "delete"})) THEN Fail(env, "expression in go/defer must be function call")
+         IF ~(s.e.k \in {"call", "flcall"} \/ (s.e.k = "builtin" /\ s.e.name \in {"panic", "delete"})) THEN Fail(env, "expression in go/defer must be function call")
          ELSE IF x.err # "" THEN Fail(env, x.err)
          ELSE MarkUsed(env, IdentsOf(s.e))
     [] s.k = "send" ->
@@ -789,7 +817,7 @@ PreludeLocals == << <<"vi", "int">>, <<"vi8", "int8">>, <<"vu8", "uint8">>, <<"v
 PLE(nm, t) == Entry(nm, t, "var", TRUE, 1, NoCV)
 PreludeLocalEntries == <<PLE("vi", TInt), PLE("vi8", TInt8), PLE("vu8", TUint8), PLE("vf", TFloat), PLE("vs", TString), PLE("vb", TBool),
   PLE("vn", TN), PLE("vp", TPtr), PLE("vsl", TSlice), PLE("vm", TMap), PLE("vfn", TFunc), PLE("va", TAny), PLE("ve", TError), PLE("vch", TChan), PLE("vns", TNS)>>
-RECURSIVE DeclImports(_, _, _), DeclTops(_, _, _), CheckTopBodies(_, _, _)
+RECURSIVE DeclImports(_, _, _), DeclTops(_, _, _), CheckTopBodies(_, _, _), ReachFrom(_, _), ResolveTops(_, _, _)
 DeclImports(env, imps, j) ==
   IF j > Len(imps) \/ env.err # "" THEN env
   ELSE LET nm == IF imps[j].alias = "" THEN imps[j].path ELSE imps[j].alias IN
@@ -807,9 +835,45 @@ DeclTops(env, tops, j) ==
   ELSE LET d == tops[j]
            e1 == CASE d.k = "func" -> Declare(env, d.name, FuncT(TYs([i \in 1..Len(d.params) |-> d.params[i].t]), TYs(d.res), FALSE), "func", NoCV)
                    [] d.k = "var" -> Declare(env, d.name, TY(d.t), "var", NoCV)
+                   \* var name [t] = e: the name is in scope in the whole package; its type is known once ResolveTops reaches it
+                   [] d.k = "varinit" -> Declare(env, d.name, TVoid, "var", NoCV)
                    [] d.k = "type" -> Declare(env, d.name, TVoid, "type", NoCV)
                    [] d.k = "const" -> ConstDecl(env, d.name, d.t, d.e) IN
        DeclTops(e1, tops, j + 1)
+(* Package initialization (Go spec): "the scope of an identifier denoting a constant, type, variable or function declared at top
+   level is the package block" - an initializer may refer to a variable or function declared later.  "A reference to a variable or
+   function is an identifier denoting it; x depends on y if x's initialization expression or body (for functions) refers to y or to a
+   function that depends on y"; a variable that depends on itself is an initialization cycle (an error), and a variable is typed and
+   initialized when the variables it depends on are.  References: free identifiers of the initializer (a parameter of a function
+   literal hides the outer name inside the literal); of a function, the identifiers of its body other than its parameters (the
+   generated top-level functions of this family declare no locals). *)
+RECURSIVE StmtIdents(_)
+StmtIdents(ss) == UNION {LET s == ss[j] IN
+                         CASE s.k = "return" -> IdentsOfSeq(s.es) [] s.k = "expr" -> IdentsOf(s.e) [] s.k = "use" -> {s.name}
+                           [] s.k = "assign" -> IdentsOfSeq(s.es) \cup IdentsOfSeq(s.lhs) [] OTHER -> {}
+                         : j \in 1..Len(ss)}
+TopRefs(d) == CASE d.k = "varinit" -> IdentsOf(d.e)
+                [] d.k = "func" -> StmtIdents(d.body) \ {d.params[i].name : i \in 1..Len(d.params)}
+                [] OTHER -> {}
+\* the names reachable from the set S of names through the bodies of top-level functions
+ReachFrom(tops, S) ==
+  LET more == UNION {TopRefs(tops[j]) : j \in {j \in 1..Len(tops) : tops[j].k = "func" /\ tops[j].name \in S}} IN
+  IF more \subseteq S THEN S ELSE ReachFrom(tops, S \cup more)
+\* pend: indexes of the initialized variables not yet typed
+ResolveTops(env, tops, pend) ==
+  IF pend = {} \/ env.err # "" THEN env
+  ELSE LET waits(j) == {i \in pend : tops[i].name \in ReachFrom(tops, TopRefs(tops[j]))}
+           ready == {j \in pend : waits(j) = {}} IN
+       IF ready = {} THEN Fail(env, "initialization cycle")
+       ELSE LET j == CHOOSE j \in ready : \A i \in ready : j <= i
+                d == tops[j]
+                x == TypeOf(d.e, env)
+                a == IF d.t # "" THEN Assignable(x, TY(d.t))
+                     ELSE IF x.err # "" THEN x.err ELSE IF ~IsValueT(x.t) THEN "multiple-value or no value as initializer"
+                     ELSE IF IsUntyped(x.t) THEN DefaultErr(x) ELSE ""
+                k == LookupIdx(env, d.name) IN
+            IF a # "" THEN Fail(env, a)
+            ELSE ResolveTops([MarkUsed(env, IdentsOf(d.e)) EXCEPT !.vars[k].t = IF d.t # "" THEN TY(d.t) ELSE Default(x.t)], tops, pend \ {j})
 CheckTopBodies(env, tops, j) ==
   IF j > Len(tops) \/ env.err # "" THEN env
   ELSE CheckTopBodies(IF tops[j].k = "func" THEN CheckFunc(env, tops[j].params, tops[j].res, FALSE, tops[j].body) ELSE env, tops, j + 1)
@@ -818,7 +882,8 @@ Verdict(p) ==
   LET e0 == [vars |-> PreludePkg, depth |-> 0, res |-> <<>>, err |-> ""]
       e1 == DeclImports(e0, p.imports, 1)
       e2 == DeclTops(e1, p.tops, 1)
-      e3 == CheckTopBodies(e2, p.tops, 1)
+      e2b == ResolveTops(e2, p.tops, {j \in 1..Len(p.tops) : p.tops[j].k = "varinit"})
+      e3 == CheckTopBodies(e2b, p.tops, 1)
       e4 == CheckFunc(e3, p.params, p.res, p.pre, p.body) IN
   IF e4.err # "" THEN e4.err
   ELSE IF \E j \in 1..Len(e4.vars) : e4.vars[j].kind = "pkg" /\ ~e4.vars[j].used THEN "imported and not used"
